@@ -870,3 +870,13 @@ def m_findall(ctx, args, kw):
         n = s.width // k
         return ctx.new_list([s.sym_subscript(ctx, slice(j * k, (j + 1) * k)) for j in range(n)])
     raise Undecided("re.findall on symbolic text")
+
+
+# ------------------------------------------------------------------ caught exceptions (opaque payload)
+def _exc_attr(name):
+    def h(ctx, o):
+        return E.Mock(f"exception.{name}")
+    return h
+
+
+ATTR_MODELS["exception"] = {n: _exc_attr(n) for n in ("strerror", "errno", "filename", "args", "msg", "message", "code")}
